@@ -50,6 +50,34 @@ def positions(doc, path=()):
     return out
 
 
+def expected_kind(doc, path):
+    d = doc
+    for p_ in path:
+        d = d[p_]
+    # positions whose documented shape admits several node kinds
+    if len(path) >= 3 and path[-2] == "tags":
+        return "any" if isinstance(d, (str, dict)) else "scalar"          # a tag is a string or a mapping
+    if isinstance(d, dict):
+        return "map"
+    if isinstance(d, list):
+        return "seq"
+    return "scalar"
+
+
+def positions_module():
+    ps = positions(BASE_DOC)
+    kinds = ["any" if not p_ else expected_kind(BASE_DOC, p_) for p_ in ps]
+    kinds[0] = "map"
+    return ("---- MODULE ConfusionPositions ----\nExpectedKinds == <<%s>>\n====\n" % ", ".join('"%s"' % k for k in kinds))
+
+
+def confusion_cases(tier):
+    r = core.run_tlc("MC_Confusion.tla", "MC_Confusion_%s.cfg" % tier, timeout=1800, extra_files={"ConfusionPositions.tla": positions_module()})
+    if r.violation:
+        raise core.InfraError("TLC error in MC_Confusion:\n" + r.raw_tail[-1500:])
+    return r
+
+
 def set_path(doc, path, value):
     if not path:
         return value
@@ -128,7 +156,7 @@ def run_c12(tier):
     wd = core.subdir("c12")
     budget = 25000 if tier == "quick" else 400000
     # ---- (a) node-kind confusions from TLC
-    r = core.run_tlc("MC_Confusion.tla", "MC_Confusion_%s.cfg" % tier, timeout=1800)
+    r = confusion_cases(tier)
     pos_list = positions(BASE_DOC)
     inputs = []          # (label, [file bytes], patterns, flags)
     for c in r.emitted:
